@@ -1,11 +1,11 @@
-use pvmon::refmodel::ok::*;
-use palette::{FromColor, LinSrgb, Okhsl, Okhsv};
+use palette::{convert::FromColorUnclamped, Hsl, Hsv};
 fn main(){
-    for c in [[0.0,0.0,1.0],[0.0,0.0,0.5],[0.0,1e-9,0.5],[-4e-10,1e-9,0.5],[0.0,0.0,0.1],[1.0,0.0,0.0],[0.5,0.0,0.0],[0.0,0.5,0.0],[0.2,0.5,0.7]] {
-        let m = linear_srgb_to_okhsl(c);
-        let p = Okhsl::from_color(LinSrgb::new(c[0],c[1],c[2]));
-        let mv = linear_srgb_to_okhsv(c);
-        let pv = Okhsv::from_color(LinSrgb::new(c[0],c[1],c[2]));
-        println!("{:?}\n  model okhsl {:?}\n  palette     [{}, {}, {}]\n  model okhsv {:?}\n  palette     [{}, {}, {}]", c, m, p.hue.into_positive_degrees(), p.saturation, p.lightness, mv, pv.hue.into_positive_degrees(), pv.saturation, pv.value);
-    }
+    let hsv = Hsv::new_srgb(60.0f32, 2e-9f32, 1.0f32);
+    let hsl = Hsl::from_color_unclamped(hsv);
+    println!("{:?}", hsl);
+    let i = pvmon::conv_table::types().iter().position(|t| t.name=="Hsv<Srgb>/f32").unwrap();
+    let j = pvmon::conv_table::types().iter().position(|t| t.name=="Hsl<Srgb>/f32").unwrap();
+    println!("{:?}", pvmon::conv_table::convert(i,j,[60.0, 2e-9f32 as f64, 1.0]));
+    let l = pvmon::gen::lattice(pvmon::conv_table::types()[i].space);
+    println!("{}", l.iter().filter(|v| v[2]==1.0 && v[1]>0.0 && v[1]<1e-7).count());
 }
